@@ -80,6 +80,13 @@ def prove(prop, tier, R, only_keys=None):
             if r.undecided_reason:
                 undecided.append((key, r.undecided_reason))
             for ob in r.obligations:
+                if c.clause_props:
+                    # obligations are distributed over the properties the contract serves; unlisted ones belong to the first property
+                    m = re.search(r"/([a-z-]+)\[(.*)\]$", ob.name)
+                    kind, detail = (m.group(1), m.group(2)) if m else ("", "")
+                    owners = c.clause_props.get(detail) or c.clause_props.get(kind) or c.props[:1]
+                    if prop not in owners:
+                        continue
                 obligations.append(ob)
     for name, lm in R.LEMMAS.items():
         if prop in lm.props:
@@ -292,7 +299,8 @@ def write_evidence(prop, tier, seed, R, funcs, groups, lock, bounded, violations
                         "module_sha256": r.module_sha, "paths": r.paths, "obligations": len(r.obligations),
                         "heap_reads": sorted(r.reads), "heap_writes": sorted(r.writes),
                         "unrolled_loops": {str(k): v for k, v in r.unrolled.items()},
-                        "callees_by_contract_or_external": r.calls, "undecided": r.undecided_reason, "vcgen_s": round(r.seconds, 3)})
+                        "callees_by_contract_or_external": r.calls, "abstracted_blocks": getattr(r, "abstracted", []),
+                        "undecided": r.undecided_reason, "vcgen_s": round(r.seconds, 3)})
     ob_rows = [{"name": n, "verdict": g["verdict"], "required": n in lock, "paths": len(g["obs"]), "solver": g["solvers"],
                 "seconds": g["seconds"], "clause": g["text"]} for n, g in sorted(groups.items())]
     cov = {
